@@ -8,6 +8,9 @@
 #include "src/kernel/activity/MutexImpl.hpp"
 #include "src/kernel/activity/SemaphoreImpl.hpp"
 #include "src/kernel/actor/SimcallObserver.hpp"
+#include "src/kernel/actor/CommObserver.hpp"
+#include "src/kernel/activity/MessageQueueImpl.hpp"
+#include "src/mc/transition/TransitionComm.hpp"
 #include "simgrid/s4u/Actor.hpp"
 #include "src/kernel/actor/SynchroObserver.hpp"
 #include "src/mc/remote/Channel.hpp"
@@ -37,12 +40,35 @@ std::pair<bool, void*> mc::Channel::receive(size_t size)
   rd += size;
   return {true, p};
 }
+// strings on the wire, as mc::Channel does it (Channel.cpp is the socket transport and is not linked): a 16-bit length, then the characters and a final 0
+template <> std::string mc::Channel::unpack<std::string>(std::function<void(void)>)
+{
+  unsigned short len = unpack<unsigned short>();
+  receive(len + 1);
+  return std::string();
+}
+template <> void mc::Channel::pack<std::string>(std::string str)
+{
+  unsigned short len = 0; // (strings are empty in the string model)
+  pack(&len, sizeof len);
+  char zero = 0;
+  pack(&zero, 1);
+}
 template <class X> static X* raw() { return static_cast<X*>(calloc(1, sizeof(X))); }
-static long nd_pid()
+static long nd_pid(long max = 30)
 {
   long p = nondet_long();
-  ASSUME(p >= 1 && p <= 30); // the checker supports actor ids below static_config::max_threads - 1 = 31
+  ASSUME(p >= 1 && p <= max); // the checker supports actor ids below static_config::max_threads - 1 = 31 (31 is its "no actor" value)
   return p;
+}
+// Actor ids the checker cannot represent (31 and above) must be refused with an exception, never decoded as something else: a throw expression starts by
+// allocating the exception object, which is where the path ends here.
+static int expect_refusal;
+extern "C" void* __cxa_allocate_exception(unsigned long)
+{
+  CHECK(expect_refusal, "the checker raises an exception only for actor ids it cannot represent");
+  ASSUME(false);
+  return nullptr;
 }
 static int expect_owner(const actor::ActorImpl* o) { return o ? static_cast<int>(o->get_pid()) : -1; }
 
@@ -50,7 +76,7 @@ extern "C" void harness_roundtrip()
 {
   mk_actors();
   for (int i = 0; i < NA; i++) {
-    actors[i]->pid_          = nd_pid();
+    actors[i]->pid_          = nd_pid(i == 0 ? 30 : 33); // (the issuer is an actor the checker already knows; the others may be beyond what it can represent)
     const_cast<simgrid::kernel::actor::ActorImpl*&>(actors[i]->piface_.pimpl_) = actors[i];
   }
   auto* chan    = raw<char>(); // the Channel object itself is never touched: pack/receive are the byte queue above
@@ -118,12 +144,26 @@ extern "C" void harness_roundtrip()
 #elif P_KIND == 17
   const T ty = T::ACTOR_SLEEP;
   obs        = new actor::ActorSleepSimcall(iss);
+#elif P_KIND == 19
+  const T ty = T::COMM_ASYNC_SEND; // a put on a message queue is shown to the checker as an asynchronous send
+  auto* mq   = new activity::MessageQueueImpl(std::string());
+  obs        = new actor::MessIputSimcall(iss, mq, std::function<void(void*)>(), nullptr, false);
+#elif P_KIND == 20
+  const T ty = T::COMM_ASYNC_RECV;
+  auto* mq   = new activity::MessageQueueImpl(std::string());
+  obs        = new actor::MessIgetSimcall(iss, mq, nullptr, nullptr, nullptr);
 #else
   const T ty    = T::ACTOR_CREATE;
   auto* cobs    = new actor::ActorCreateSimcall(iss);
-  long childpid = nd_pid();
+  long childpid = nd_pid(33);
+  expect_refusal = childpid >= 31;
   cobs->set_child(childpid);
   obs = cobs;
+#endif
+#if P_KIND <= 4
+  expect_refusal = has_owner && actors[1]->get_pid() >= 31;
+#elif P_KIND == 15
+  expect_refusal = actors[2]->get_pid() >= 31;
 #endif
   obs->serialize(channel);
   mc::Transition* t = mc::deserialize_transition(mc::Aid{static_cast<unsigned>(iss->get_pid())}, 0, channel);
@@ -160,6 +200,10 @@ extern "C" void harness_roundtrip()
   CHECK(jt->get_target().c_val() == static_cast<int>(actors[2]->get_pid()) && (jt->timeout_ != 0) == (timeout > 0), "join transition: same target and timeout flag");
 #elif P_KIND == 18
   CHECK(static_cast<mc::ActorCreateTransition*>(t)->get_child().c_val() == static_cast<int>(childpid), "create transition: same child");
+#elif P_KIND == 19
+  CHECK(static_cast<mc::CommSendTransition*>(t)->get_mailbox() == mq->get_id(), "message-queue put: same queue");
+#elif P_KIND == 20
+  CHECK(static_cast<mc::CommRecvTransition*>(t)->get_mailbox() == mq->get_id(), "message-queue get: same queue");
 #endif
   verif_witness();
 }
